@@ -113,12 +113,32 @@ def cases(tier, seed):
                                                                  "TestVarfea.designspace", "SkipExportGlyphsTest.designspace"]
     for d in fx_d:
         sources.append(("ds", {"kind": "ds-path", "path": os.path.join(c07.DATA, d)}, d))
+    # nested composites whose intermediate glyph is changed by an EARLIER filter (a lib pre-filter decomposing its scaled
+    # component / a skip list removing it) and then flattened: the result may not depend on inplace
+    rng2 = random.Random(seed * 179424673 + 80008)
+    P = 1024
+    for k in range(3 if tier == "quick" else 12):
+        sq = lambda x, y, w: [[x * P, y * P, "line"], [(x + w) * P, y * P, "line"], [(x + w) * P, (y + w) * P, "line"], [x * P, (y + w) * P, "line"]]  # noqa
+        g = {"A": {"cs": [sq(rng2.randint(0, 50), 0, rng2.randint(100, 200))], "comps": [], "anchors": [], "w": 500 * P, "h": 0, "u": [0x41]},
+             "B": {"cs": [], "comps": [{"b": "A", "m": [[128, 0, 0, 128], [64, 0, 0, 64], [-64, 0, 0, 64]][k % 3], "d": [rng2.randint(0, 40) * P, 0]}],
+                   "anchors": [], "w": 600 * P, "h": 0, "u": [0x42]},
+             "C": {"cs": [], "comps": [{"b": "B", "m": [64, 0, 0, 64], "d": [50 * P, rng2.randint(0, 30) * P]}], "anchors": [], "w": 650 * P, "h": 0, "u": [0x43]},
+             "D": {"cs": [], "comps": [{"b": "C", "m": [64, 0, 0, 64], "d": [0, 10 * P]}, {"b": "A", "m": [64, 0, 0, 64], "d": [300 * P, 0]}],
+                   "anchors": [], "w": 700 * P, "h": 0, "u": [0x44]}}
+        u = {"glyphs": g, "order": ["A", "B", "C", "D"], "info": {"unitsPerEm": 1000, "ascender": 800, "descender": -200, "familyName": "Flat", "styleName": "Regular"}}
+        u["lib"] = {"com.github.googlei18n.ufo2ft.filters": [{"name": "decomposeTransformedComponents", "pre": True}]} if k % 3 != 1 else \
+                   {"public.skipExportGlyphs": ["B"]}
+        sources.append(("ufo", {"kind": "ufo", "ufo": u}, f"gen-flatten-{k}"))
     out = []
     k = 0
     for kind, src, sid in sources:
         hists = UFO_HISTORIES if kind == "ufo" else DS_HISTORIES
         if sid.startswith("gen-layout") or sid.startswith("gen-propagate"):
             hists = [[("compileTTF", {})]]
+        elif sid.startswith("gen-flatten"):
+            hists = [[("compileTTF", {"flattenComponents": True})], [("compileTTF", {"flattenComponents": True, "inplace": True})],
+                     [("compileTTF", {"flattenComponents": True}), ("compileTTF", {"flattenComponents": True, "inplace": True})],
+                     [("compileOTF", {})], [("compileOTF", {"inplace": True})]]
         elif sid.startswith("gen-ftconfig"):
             cfgkw = {"ftConfig": "@shared"}
             hists = [[("compileVariableTTF", cfgkw), ("compileVariableTTF", cfgkw)], [("compileVariableTTF", cfgkw)],
@@ -133,6 +153,8 @@ def cases(tier, seed):
             # every history is run in >= 3 environments (quick) / all (thorough)
             if sid.startswith("gen-layout"):
                 chosen = [(hs, "ufoLib2", "memory") for hs in ["0", "1", "2", "3", "5", "17", "101", "4242"]] + [(seeds[0], "defcon", "disk")]
+            elif sid.startswith("gen-flatten"):
+                chosen = [(seeds[0], "ufoLib2", "memory"), (seeds[1], "defcon", "memory")]
             elif sid.startswith("gen-ftconfig"):
                 chosen = [(seeds[0], "ufoLib2", "memory"), (seeds[1], "defcon", "memory")]
             elif sid.startswith("gen-faminfo"):
